@@ -680,6 +680,10 @@ def main(run):
         "C16_no_error_partial: diff_main's totality is proved relative to `bisect_safe` (diff_bisect's middle-snake search returns and never reports a corner of the grid as split point); on every run the correspondence reports any input on which the model returns an error (out of fuel / index) while the implementation succeeds",
     ]
     lib.conclude(run, ok, pinfo, corr, viols, deeper)
+    # the bisect_safe cases exercise the model only (they test the hypothesis of C16_no_error_partial)
+    nbis = sum(1 for c in cases if c["kind"] == "bis")
+    run.coverage["traces_validated_against_impl"] -= nbis
+    run.coverage["model_only_hypothesis_checks"] = {"bisect_safe": nbis}
 
 
 def replay(run, path):
